@@ -44,7 +44,7 @@ def typeMatches (ty st : Str) : Bool :=
 /-- the messages prescribed for search target `st`; the flag says that ST is compared ignoring
     ASCII case (everything but `ssdp:all` / `upnp:rootdevice`, whose answers carry the advertised
     types verbatim) -/
-def expected (t : DevTree) (st : Str) : List Exp × Bool :=
+def expectedBase (t : DevTree) (st : Str) : List Exp × Bool :=
   let l := lower st
   if l = ssdpAll then (expAll t, false)
   else if l = rootDevice then ([expRoot t], false)
@@ -52,6 +52,11 @@ def expected (t : DevTree) (st : Str) : List Exp × Bool :=
     (((allDevices t).filter fun d => lower d.udn == l).map expUuid
       ++ ((allDevices t).filter fun d => typeMatches d.type st).map (expDevType st)
       ++ ((allServices t).filter fun s => typeMatches s.type st).map (expSvc st), true)
+
+/-- … plus, when the responder runs with `ssdp_search_responder_always_rootdevice`, one more root
+    device message on every search (that is what the option is for; the default is off) -/
+def expected (t : DevTree) (alwaysRoot : Bool) (st : Str) : List Exp × Bool :=
+  ((expectedBase t st).1 ++ (if alwaysRoot then [expRoot t] else []), (expectedBase t st).2)
 
 def normKey (ci : Bool) (st usn : Str) : Str × Str := (if ci then lower st else st, usn)
 
@@ -79,6 +84,7 @@ deriving Repr
 
 structure CaseObs where
   tree : DevTree            -- the instantiated device tree
+  alwaysRoot : Bool         -- responder option `ssdp_search_responder_always_rootdevice`
   location : Str            -- the server's description URL
   target : Str              -- where advertisements go
   searches : List SearchObs
@@ -110,7 +116,7 @@ def isMSearch (r : Req) : Bool := r.line == mSearchLine && r.man == some ssdpDis
 
 def okSearch (c : CaseObs) (s : SearchObs) : Bool :=
   !isMSearch s.req ||
-  (let (exp, ci) := expected c.tree (s.req.st.getD [])
+  (let (exp, ci) := expected c.tree c.alwaysRoot (s.req.st.getD [])
    !s.raised
    && (s.sends.map fun m => normKey ci m.st m.usn).isPerm (exp.map fun e => normKey ci e.st e.usn)
    && s.sends.all fun m =>
@@ -170,15 +176,12 @@ def baseOf (s : Str) : Option Str := (typeParts (lower s)).map (·.1)
 
 def wfUdn (u : Str) : Bool := startsWith (lower u) "uuid:".toList && noSep u
 
-/-- UDNs are `uuid:` names without `::` that do not end in `:`; every device and service type is `base:version`; no UDN,
-    read as a type, shares its base with a type; device types and service types have different bases -/
+/-- UDNs are `uuid:` names (any letter case) without `::` that do not end in `:`; every device and
+    service type is `base:version` with a canonical decimal version.  Nothing else: devices may share
+    UDNs or types, services may repeat across devices, a device type may equal a service type. -/
 def wfTree (t : DevTree) : Bool :=
-  let devs := allDevices t
-  let svcs := allServices t
-  devs.all (fun d => wfUdn d.udn && (baseOf d.type).isSome)
-  && svcs.all (fun s => (baseOf s.type).isSome)
-  && devs.all (fun d => devs.all (fun d' => baseOf d.udn != baseOf d'.type)
-                        && svcs.all (fun s => baseOf d.udn != baseOf s.type && baseOf d.type != baseOf s.type))
+  (allDevices t).all (fun d => wfUdn d.udn && (baseOf d.type).isSome)
+  && (allServices t).all (fun s => (baseOf s.type).isSome)
   && wfUdn t.udn
 
 end Upnp.C13
